@@ -51,6 +51,9 @@ pub struct Query {
 pub struct Case {
     pub ops: Vec<Op>,
     pub queries: Vec<Query>,
+    /// > 0: instead of a history, the scenario of props/scale.rs with this many events of one author
+    #[serde(default)]
+    pub scale: u32,
 }
 
 pub struct C05;
@@ -205,7 +208,7 @@ impl Prop for C05 {
             ..EvCfg::default()
         };
         (history(w, cfg, tier.pick(30, 100)), prop::collection::vec(query_strategy(), 1..8))
-            .prop_map(|(ops, queries)| Case { ops, queries })
+            .prop_map(|(ops, queries)| Case { ops, queries, scale: 0 })
             .boxed()
     }
     fn label_floors(&self) -> Vec<(&'static str, f64)> {
@@ -229,8 +232,18 @@ impl Prop for C05 {
     fn max_shrink_iters(&self) -> u32 {
         400
     }
+    fn enumerated_subspaces(&self, tier: Tier) -> Vec<String> {
+        vec![format!("large stores ({:?} events of one author + 50 others): every index plan unlimited and with a limit of n-3: exact set, newest first, newest-k", crate::props::c17::scale_sizes(tier))]
+    }
+    fn enumerate(&self, tier: Tier) -> Vec<Case> {
+        crate::props::c17::scale_sizes(tier).into_iter().map(|n| Case { ops: Vec::new(), queries: Vec::new(), scale: n }).collect()
+    }
     fn check(&self, c: &Case) -> Outcome {
         let mut out = Outcome::default();
+        if c.scale > 0 {
+            crate::props::scale::scale_scenario("C05", c.scale as usize, crate::props::scale::Focus::Queries, &mut out);
+            return out;
+        }
         let mut w = match World::new(0) {
             Ok(w) => w,
             Err(f) => {
